@@ -123,6 +123,25 @@ def kind_of(x):
     return x if isinstance(x, str) else 'explicit'
 
 
+def as_container(seq, how):
+    """the same integer sequence handed over in another legal way (the documentation asks for a sequence)"""
+    seq = list(seq)
+    if how == 'tuple':
+        return tuple(seq)
+    if how == 'range' and len(seq) >= 1:
+        step = seq[1] - seq[0] if len(seq) > 1 else 1
+        r = range(seq[0], seq[0] + step * len(seq), step) if step else None
+        if r is not None and list(r) == seq:
+            return r
+    if how == 'array':
+        import array
+        return array.array('i', seq)
+    if how == 'userlist':
+        from collections import UserList
+        return UserList(seq)
+    return list(seq)
+
+
 def run_lib(case):
     from cnfgen import Shuffle
     F = mkF(case['F'])
@@ -135,7 +154,7 @@ def run_lib(case):
         v = case[key]
         if isinstance(v, dict):
             seq = v['seq']
-            v = tuple(seq) if v.get('tuple') else list(seq)
+            v = as_container(seq, v.get('as', 'tuple' if v.get('tuple') else 'list'))
         args[key] = v
     before = [list(a) if not isinstance(a, str) else a for a in args.values()]
     random.seed(case['rseed'])
@@ -155,6 +174,11 @@ def run_lib(case):
     out = [list(c) for c in G]
     consequences(Fc, n, G.number_of_variables(), out, what)
     labels = ['pf:' + kind_of(args['pf']), 'vp:' + kind_of(args['vp']), 'cp:' + kind_of(args['cp'])]
+    for k in args:
+        if isinstance(args[k], range) and list(args[k]) != sorted(args[k]):
+            labels.append('descending-range')
+        elif not isinstance(args[k], (str, list, tuple)):
+            labels.append('as:' + type(args[k]).__name__)
     if all(not isinstance(args[k], str) or args[k] == 'fixed' for k in args):
         # fully determined: reference implementation
         flips = [1] * n if args['pf'] == 'fixed' else list(args['pf'])
@@ -224,6 +248,10 @@ def strat_lib(draw):
         else:
             seq = draw(st.permutations(list(range(size))))
         seq = list(seq)
+        how_as = draw(st.sampled_from(['list', 'list', 'tuple', 'range', 'array', 'userlist']))
+        if how_as == 'range' and key != 'pf' and kind != 'invalid':
+            # the permutations that a range can express: identity and reversal
+            seq = sorted(seq, reverse=draw(st.booleans()))
         if kind == 'invalid':
             how = draw(st.sampled_from(['short', 'long', 'repeat', 'range', 'zero', 'shift']))
             if how == 'short':
@@ -244,7 +272,7 @@ def strat_lib(draw):
             else:
                 seq = seq + [1]
             case['invalid'] = True
-        case[key] = {'seq': seq, 'tuple': draw(st.booleans())}
+        case[key] = {'seq': seq, 'as': how_as}
     return case
 
 
@@ -261,6 +289,13 @@ def enum_lib(tier):
                         continue
                     yield {'F': F, 'rseed': 1, 'invalid': False, 'also_search': False,
                            'pf': {'seq': list(flips)}, 'vp': {'seq': list(perm)}, 'cp': {'seq': list(S)}}
+                    for how in ('range', 'array', 'userlist', 'tuple'):
+                        # the same arguments through the other sequence types (range: where expressible)
+                        if how == 'range' and not (list(perm) in (sorted(perm), sorted(perm, reverse=True)) or
+                                                   list(S) in (sorted(S), sorted(S, reverse=True))):
+                            continue
+                        yield {'F': F, 'rseed': 1, 'invalid': False, 'also_search': False,
+                               'pf': {'seq': list(flips), 'as': how}, 'vp': {'seq': list(perm), 'as': how}, 'cp': {'seq': list(S), 'as': how}}
 
 
 # ---------------------------------------------------------------------------
@@ -335,9 +370,10 @@ def strat_tool(draw):
 
 SUBCHECKS = [
     SubCheck('library', run_lib, strategy=strat_lib, enumerate_cases=enum_lib, quick=3000, thorough=120000,
-             rule="CNFs with 0..8 variables, 0..10 clauses (duplicates, empty clauses, unused variables) x each of the three arguments in {'fixed','shuffle', explicit list/tuple, explicit invalid (wrong length, repeated, out of range, 0/2 flips, shifted base)} x seeds; complete slice: every explicit (flips, permutation, clause permutation) on two small formulas; oracle: explicit => equals the documented mapping, invalid => ValueError, random => hook witness verified (or backtracking search), same variable/clause counts, width multiset and model count, inputs untouched, description keeps the original text; non-trivial: >=3 variables, >=3 distinct clauses, some component not fixed",
+             rule="CNFs with 0..8 variables, 0..10 clauses (duplicates, empty clauses, unused variables) x each of the three arguments in {'fixed','shuffle', explicit sequence given as list / tuple / range (identity, reversal) / array.array / UserList, explicit invalid (wrong length, repeated, out of range, 0/2 flips, shifted base)} x seeds; complete slice: every explicit (flips, permutation, clause permutation) on two small formulas; oracle: explicit => equals the documented mapping, invalid => ValueError, random => hook witness verified (or backtracking search), same variable/clause counts, width multiset and model count, inputs untouched, description keeps the original text; non-trivial: >=3 variables, >=3 distinct clauses, some component not fixed",
              required_labels=['pf:fixed', 'pf:shuffle', 'pf:explicit', 'vp:fixed', 'vp:shuffle', 'vp:explicit', 'cp:fixed',
-                              'cp:shuffle', 'cp:explicit', 'invalid-rejected', 'hook-witness', 'searched-witness', 'reference']),
+                              'cp:shuffle', 'cp:explicit', 'invalid-rejected', 'hook-witness', 'searched-witness', 'reference',
+                              'descending-range', 'as:array', 'as:UserList']),
     SubCheck('tools', run_tool, strategy=strat_tool, quick=400, thorough=20000,
              rule="cnfshuffle (DIMACS on stdin, every subset of -p -v -c -q, --seed) and 'cnfgen <family> -T shuffle' with every subset of the three --no-* switches; oracle: witness verified, switched-off components are the identity, printed text equals the formula built under the same seed, all three off => clauses unchanged",
              required_labels=['cnfshuffle', 'cnfgen-T', 'all-off', 'hook-witness']),
